@@ -300,9 +300,6 @@ func checkC14(res *vh.Result, kc *kinCache, it *built, si *stepInfo, ob *rt.Obs,
 	if si.Side == "request" && ob.Resp == nil {
 		// no response at all: the server crashed while serving the request; neither an acceptance nor a rejection
 		sig := "server-no-response"
-		if len(si.Expected) == 1 && si.Expected[0].Kw == "required" && mapNestedCollectionRequiredOnly(si.Design, si.M.Payload, si.Expected[0].Path) {
-			sig = "map-nested-collection-required-only-unvalidated"
-		}
 		failSig(res, sig, fmt.Sprintf("the server answered nothing (it crashed) on a request (%s at %s); schema verdict: conforms=%v %s", si.Desc, si.Site, reqV.OK, reqV.Err), in)
 		return
 	}
